@@ -37,7 +37,7 @@ contract("codemodder.dependency_management.base_dependency_writer.DependencyWrit
 # every manifest writer: dynamic-dispatch contract of add_to_file
 DYN_ADD_ENSURES = [
     ("dry-run writes nothing", "implies(dry_run, fs == old(fs))"),
-    ("only this writer's manifest can change", "all(implies(p != self.path, fs[p] == old(fs)[p]) for p in ANY('Opaque'))"),
+    ("only this writer's manifest can change", "fs == store(old(fs), self.path, fs[self.path])"),
     ("no changeset => manifest untouched", "implies(result is None, fs == old(fs))"),
 ]
 contract("dyn:DependencyWriter.add_to_file", trusted=True,
@@ -86,5 +86,5 @@ contract("codemodder.dependency_management.dependency_manager.DependencyManager.
          params={"self": "DependencyManager", "dependencies": "list[Dependency]", "dry_run": "bool"}, returns="ChangeSet | None",
          modifies=["self.dependencies_store.dependencies", "ghost:fs"], raises_any=True,
          ensures=[("dry-run writes nothing", "implies(dry_run, fs == old(fs))"),
-                  ("only the store's own manifest can change", "all(implies(p != Path(self.dependencies_store.file), fs[p] == old(fs)[p]) for p in ANY('Opaque'))"),
+                  ("only the store's own manifest can change", "fs == store(old(fs), Path(self.dependencies_store.file), fs[Path(self.dependencies_store.file)])"),
                   ("no changeset => nothing written", "implies(result is None, fs == old(fs))")])
